@@ -7,8 +7,8 @@ for f in ['/verif/known_findings.json'] + sorted(glob.glob('/verif/known_finding
     for x in json.load(open(f)).get('findings', []):
         kf.setdefault(x['property'], []).append(x['id'])
 props = {json.loads(l)['id']: json.loads(l) for l in open('/verif/properties.jsonl')}
-print("| id | engine | obligations | open findings | seeded change | check |")
-print("|---|---|---|---|---|---|")
+print("| id | engine | obligations | open findings | seeded change (round 1) | second seeded change (round 2) | check |")
+print("|---|---|---|---|---|---|---|")
 for pid in sorted(props):
     try:
         m = importlib.import_module(f'harness.props.{pid}')
@@ -20,4 +20,18 @@ for pid in sorted(props):
     if os.path.exists(sm):
         d = json.load(open(sm))['detected_by'].get(pid, '')
         seed = 'caught' if d.startswith('VIOLATION') else ('missed first, caught after extension' if 'MISSED' in d and 'VIOLATION' in d else ('weak first, caught after fix' if 'VIOLATION' in d else 'MISSED (open)'))
-    print(f"| {pid} | {eng} | {nob} | {', '.join(kf.get(pid, [])) or '–'} | {seed} | {'claimed' if pid in ready else 'not claimed'} |")
+    def verdict(path):
+        if not os.path.exists(path):
+            return '-'
+        d = json.load(open(path))['detected_by'].get(pid, '')
+        if d.startswith('VIOLATION'):
+            return 'caught'
+        if 'MISSED' in d:
+            return 'missed first, caught after extension' if 'VIOLATION' in d else 'MISSED (open)'
+        low = d.lower()
+        if 'after' in low and 'VIOLATION' in d[low.index('after'):]:
+            return 'weak first, caught after extension'
+        return 'weak (open)' if 'no-failing-input-found' in d else 'MISSED (open)'
+    seed = verdict(sm) if seed != '-' else '-'
+    seed2 = verdict(f'/verif/seeded/{pid}r2/meta.json')
+    print(f"| {pid} | {eng} | {nob} | {', '.join(kf.get(pid, [])) or '–'} | {seed} | {seed2} | {'claimed' if pid in ready else 'not claimed'} |")
